@@ -304,6 +304,13 @@ func registerIntrinsics(e *Engine) {
 		}
 		return ConstBV(h>>1, 64)
 	}
+	e.intr["(time.Time).Truncate"] = func(e *Engine, st *State, cc *ssa.CallCommon, a []Value) Value {
+		t, d := tt(a[0]), asTerm(a[1])
+		if !t.IsConst() || !d.IsConst() {
+			unsupported("time.Time.Truncate with symbolic operands")
+		}
+		return mkT(ConstBV(uint64(time.Unix(0, t.Signed()).Truncate(time.Duration(d.Signed())).UnixNano()), 64))
+	}
 	e.intr["time.Unix"] = func(e *Engine, st *State, cc *ssa.CallCommon, a []Value) Value {
 		return mkT(BVBin("bvadd", BVBin("bvmul", asTerm(a[0]), ConstBV(1000000000, 64)), asTerm(a[1])))
 	}
